@@ -320,20 +320,23 @@ func runScenario(t *testing.T, sc scenario) (obs observed, fails []failure) {
 			}
 		}
 		// spin (real time, no virtual-time primitive) until done() or the budget is exhausted
-		spin := func(done func() bool, budget int) bool {
-			for i := 0; i < budget; i++ {
-				if done() {
-					return true
+		spin := func(done func() bool, rounds int) bool {
+			// each round: 64 scheduler yields, then a 50 microsecond real-time pause
+			// (time.Sleep would be virtual inside the bubble)
+			for r := 0; r < rounds; r++ {
+				for i := 0; i < 64; i++ {
+					if done() {
+						return true
+					}
+					runtime.Gosched()
 				}
-				runtime.Gosched()
-				if i%64 == 63 {
-					// real-time pause (time.Sleep would be virtual inside the bubble)
-					ts := syscall.Timespec{Nsec: 20000}
-					syscall.Nanosleep(&ts, nil)
-				}
+				ts := syscall.Timespec{Nsec: 50000}
+				syscall.Nanosleep(&ts, nil)
 			}
 			return done()
 		}
+		const blockedRounds = 200      // >= 10 ms: long enough for an unblocked registration to finish
+		const completeRounds = 2400000 // >= 2 min: a registration that is not blocked must finish
 
 		runOp = func(o op) {
 			before := look()
@@ -358,7 +361,7 @@ func runScenario(t *testing.T, sc scenario) (obs observed, fails []failure) {
 				if len(held) > 0 {
 					// a notification is in progress: either the registration completes anyway (no
 					// serialisation: the window is open) or it waits for the notification to end
-					if !spin(fin.Load, 4000) {
+					if !spin(fin.Load, blockedRounds) {
 						o.blockedByNotify = true
 						tags := []int{}
 						for tag := range held {
@@ -369,7 +372,7 @@ func runScenario(t *testing.T, sc scenario) (obs observed, fails []failure) {
 							close(held[tag])
 							delete(held, tag)
 						}
-						if !spin(fin.Load, 4000000) {
+						if !spin(fin.Load, completeRounds) {
 							panic("registration did not complete after the held notification was released")
 						}
 						synctest.Wait()
@@ -378,7 +381,7 @@ func runScenario(t *testing.T, sc scenario) (obs observed, fails []failure) {
 							obs.Snaps = append(obs.Snaps, snapT{Skip: true})
 						}
 					}
-				} else if !spin(fin.Load, 4000000) {
+				} else if !spin(fin.Load, completeRounds) {
 					panic("registration did not complete")
 				}
 				synctest.Wait()
